@@ -81,8 +81,9 @@ def judge(case):
     fails = []
     try:
         P = Parameters()
+        wrap = {"vText": vText, "vCalAddress": vCalAddress, "strsub": type("StrSub", (str,), {})}.get(case.get("ptype"), str)
         for name, v in pm:
-            P[name] = v
+            P[name] = v if isinstance(v, list) else wrap(v)      # a typed string is its characters
         if path == "params":
             text = P.to_ical(sorted=case.get("sorted", True)).decode("utf-8")
             ptext = text
@@ -118,7 +119,7 @@ def judge(case):
             return fails + judge_typed(case, pm, exp)
         else:
             ev = Event()
-            ev.add("x-prop", "v", parameters={name: v for name, v in pm})
+            ev.add("x-prop", "v", parameters={name: (v if isinstance(v, list) else wrap(v)) for name, v in pm})
             ev.add("summary", "sentinel")
             raw = ev.to_ical()
             lines = [ln for ln in unfold(raw) if ln.upper().startswith("X-PROP")]
@@ -284,7 +285,7 @@ REGIONS = {"rcb-param-value": region_rcb_param}
 
 # ----------------------------------------------------------------------------- streams
 
-_pchar = st.one_of(st.sampled_from(SYM), st.sampled_from(list("bcXYZ019-_./@")),
+_pchar = st.one_of(st.sampled_from(SYM), st.sampled_from(list("bcXYZ019-_./@")), st.sampled_from(["%2c", "%3a", "%3b", "%5c", "%2f", "%22", "cid:part%3aone"]),
                    st.characters(blacklist_categories=("Cs", "Cc"), blacklist_characters='"\x7f'))
 pvalue = st.lists(_pchar, max_size=12).map("".join)
 pname = st.lists(st.sampled_from(list("abcxyzABCXYZ0189-")), min_size=1, max_size=8).map("".join).filter(lambda s: True)
@@ -301,7 +302,7 @@ def pmaps(draw):
             pm.append([nm, draw(pvalue)])
     return {"path": draw(st.sampled_from(["params", "line", "component", "component"])), "params": pm, "sorted": draw(st.booleans()),
             "prop": draw(st.one_of(st.none(), st.sampled_from(sorted(TYPED)))), "neighbour_first": draw(st.booleans()),
-            "between": draw(st.sampled_from([None, "strict", "strict", "lenient"]))}
+            "between": draw(st.sampled_from([None, "strict", "strict", "lenient"])), "ptype": draw(st.sampled_from([None, None, "vText", "vCalAddress", "strsub"]))}
 
 
 def _sweep(i):
